@@ -256,8 +256,6 @@ def bundled_session(ctx, rng, kind=None):
         r = session.run_session(sc, SP.make_policy(pdesc), ctx.workdir, client_factory=factory, max_steps=600000)
     finally:
         client_mod.ObservedPlayingPhase = Orig
-    if r.status == 'WATCHDOG':
-        raise common.Infra(f'scheduler watchdog: a thread blocked outside a yield point ({r.deadlock})')
     ctx.count('_cases')
     ctx.count('_evals', r.steps)
     ctx.count('bundled_sessions')
